@@ -15,6 +15,7 @@ pub mod c12;
 pub mod c13;
 pub mod c14;
 pub mod c15;
+pub mod c16;
 pub mod c17;
 pub mod c18;
 pub mod c19;
@@ -37,6 +38,7 @@ pub fn lookup(id: &str) -> Option<PropFn> {
         "C13" => c13::run,
         "C14" => c14::run,
         "C15" => c15::run,
+        "C16" => c16::run,
         "C17" => c17::run,
         "C18" => c18::run,
         "C19" => c19::run,
